@@ -157,8 +157,35 @@
 ;@ needs chain
 (assert (forall ((hf Int) (PS (Array Int Int)) (A (Array Int Int)) (X (Array Int Int)) (s Int))
   (! (= (chain hf PS A X s 0) X) :pattern ((chain hf PS A X s 0)))))
+;@ needs chain
+(assert (forall ((hf Int) (PS (Array Int Int)) (A (Array Int Int)) (X (Array Int Int)) (s Int) (k Int))
+  (! (=> (>= k 0) (= (chain hf PS A X s (+ k 1)) (randF hf PS (store A 6 (+ s k)) (chain hf PS A X s k))))
+     :pattern ((chain hf PS A X s (+ k 1))))))
 ;@ needs chainS
 (assert (forall ((hf Int) (PS (Array Int Int)) (A (Array Int Int)) (X (Array Int Int)) (s Int) (k Int))
   (! (and (= (chainS hf PS A X s k) (chain hf PS A X s k))
           (=> (> k 0) (= (chain hf PS A X s k) (randF hf PS (store A 6 (+ s (- k 1))) (chain hf PS A X s (- k 1))))))
      :pattern ((chainS hf PS A X s k)))))
+; ---- base-w digits (RFC 8391 Algorithm 1), most significant bits first; lw = lg(w) in {2,4,8} ----
+(declare-fun bwdig ((Array Int Int) Int Int Int) Int)
+;@ needs bwdig
+(assert (forall ((B (Array Int Int)) (o Int) (k Int) (lw Int))
+  (! (= (bwdig B o k lw)
+  (ite (= lw 8) (select B (+ o k))
+  (ite (= lw 4) (ite (= (mod k 2) 0) (div (select B (+ o (div k 2))) 16) (mod (select B (+ o (div k 2))) 16))
+       (ite (= (mod k 4) 0) (div (select B (+ o (div k 4))) 64)
+       (ite (= (mod k 4) 1) (mod (div (select B (+ o (div k 4))) 16) 4)
+       (ite (= (mod k 4) 2) (mod (div (select B (+ o (div k 4))) 4) 4)
+                            (mod (select B (+ o (div k 4))) 4)))))))
+     :pattern ((bwdig B o k lw)))))
+; toByteN(v, nb): v as nb big-endian bytes (RFC 8391 toByte)
+(declare-fun toByteN (Int Int) (Array Int Int))
+;@ needs toByteN
+(assert (forall ((v Int) (nb Int) (d Int)) (! (= (select (toByteN v nb) d) (ite (and (<= 0 d) (< d nb)) (byte32 v (- (- nb 1) d)) 0)) :pattern ((select (toByteN v nb) d)))))
+; wsum(B,o,n,lw,w): WOTS+ checksum of the first n base-w digits: sum of (w-1-digit)
+(declare-fun wsum ((Array Int Int) Int Int Int Int) Int)
+;@ needs wsum
+(assert (forall ((B (Array Int Int)) (o Int) (lw Int) (w Int)) (! (= (wsum B o 0 lw w) 0) :pattern ((wsum B o 0 lw w)))))
+;@ needs wsum
+(assert (forall ((B (Array Int Int)) (o Int) (n Int) (lw Int) (w Int))
+  (! (=> (>= n 0) (= (wsum B o (+ n 1) lw w) (+ (wsum B o n lw w) (- (- w 1) (bwdig B o n lw))))) :pattern ((wsum B o (+ n 1) lw w)))))
